@@ -298,6 +298,7 @@ class ClosureMatch(Rewrite):
         'opt.or_else': '(match {recv} {{ Some(x__) => Some(x__), None => {body} }})',
         'opt.ok_or_else': '(match {recv} {{ Some(x__) => Ok(x__), None => Err({body}) }})',
         'opt.unwrap_or_else': '(match {recv} {{ Some(x__) => x__, None => {body} }})',
+        'opt.filter': '(match {recv} {{ Some(x__) => {{ let {pat} = &x__; if {body} {{ Some(x__) }} else {{ None }} }}, None => None }})',
         'opt.is_some_and': '(match {recv} {{ Some({pat}) => {body}, None => false }})',
         'opt.is_none_or': '(match {recv} {{ Some({pat}) => {body}, None => true }})',
         'res.map': '(match {recv} {{ Ok({pat}) => Ok({body}), Err(e__) => Err(e__) }})',
